@@ -136,6 +136,34 @@ def run(res, tier, seed, widen=1):
             traces.append((case, r, (md, thr, slp)))
             res.nontriv((tuple(script), k))
             res.count("close_injected")
+    # the library's own protocol object between transport and manager: losses signalled through connection_lost(), also
+    # before the factory has returned and in the loop iteration right after it (before the manager waits for `done`)
+    for _ in range((60 if tier == "quick" else 1500) * widen):
+        n = rng.randint(1, 5)
+        script = []
+        for _ in range(n):
+            if rng.random() < 0.3:
+                script.append(("fail", rng.choice([0, 0, 1, 3]), None))
+            else:
+                script.append(("ok", rng.choice([0, 0, 1, 2]), rng.choice([0, "soon", "soon", 1, 3, 7])))
+        script.append(("ok", 0, None))
+        thr, slp, md = rng.choice([(5, 5, 60), (10, 2, 60), (1, 1, 4)])
+        r = vloop.run_scenario(script, threshold=thr, sleep_sec=slp, max_delay=md, real_protocol=True)
+        res.evaluations += 1
+        case = {"op": "connmgr", "script": [list(x) for x in script], "close_at": None, "cfg": [thr, slp, md], "real_protocol": True}
+        why = oracle(script, r, False, thr, slp, md)
+        if why:
+            res.prop_failure(case, why, "real_protocol")
+        res.nontriv((tuple(script), "real"))
+        k = rng.randint(1, max(1, r["iters"]))
+        r2 = vloop.run_scenario(script, close_at=k, threshold=thr, sleep_sec=slp, max_delay=md, real_protocol=True)
+        res.evaluations += 1
+        if any(e[2] == "close_called" for e in r2["events"]):
+            case2 = dict(case, close_at=k)
+            why = oracle(script, r2, True, thr, slp, md)
+            if why:
+                res.prop_failure(case2, why, "real_protocol")
+        res.count("real_protocol")
     # trace inclusion in the Lean transition system
     reqs = [f"connmgr {md} {thr} {slp} {','.join(tokens(r['events'])) or '.'}" for _, r, (md, thr, slp) in traces]
     for (case, r, _), rq, a in zip(traces, reqs, lib.drive(reqs)):
@@ -182,7 +210,7 @@ def replay(payload, res):
         return 1 if why else 0
     script = [tuple(x) for x in c["script"]]
     thr, slp, md = c["cfg"]
-    r = vloop.run_scenario(script, close_at=c["close_at"], threshold=thr, sleep_sec=slp, max_delay=md)
+    r = vloop.run_scenario(script, close_at=c["close_at"], threshold=thr, sleep_sec=slp, max_delay=md, real_protocol=bool(c.get("real_protocol")))
     print("trace:", tokens(r["events"]), {k: v for k, v in r.items() if k != "events"})
     why = oracle(script, r, c["close_at"] is not None, thr, slp, md)
     print("REPLAY", "fails: " + why if why else "passes")
